@@ -9,12 +9,13 @@ From LH Require Import Base.Bytes Model.Lexer Model.Ast Model.Scope Model.Global
 Import ListNotations.
 Local Open Scope Z_scope.
 
-Definition elocs (en : env) : list loc := map (fun x => snd (fst x)) en.
-Definition dl (os : list socc) : list loc := map s_loc (filter (fun s => is_decl (s_role s)) os).
+Definition elocs (en : env) : list (list N * loc) := map fst en.
+Definition dl (os : list socc) : list (list N * loc) :=
+  map (fun s => (s_name s, s_loc s)) (filter (fun s => is_decl (s_role s)) os).
 
-Definition GoodOcc (D : list loc) (s : socc) : Prop :=
-  (is_decl (s_role s) = true -> s_bind s = BLocal (s_loc s)) /\ (forall d, s_bind s = BLocal d -> In d D).
-Definition Good (D : list loc) (os : list socc) : Prop := Forall (GoodOcc D) os.
+Definition GoodOcc (D : list (list N * loc)) (s : socc) : Prop :=
+  (is_decl (s_role s) = true -> s_bind s = BLocal (s_loc s)) /\ (forall d, s_bind s = BLocal d -> In (s_name s, d) D).
+Definition Good (D : list (list N * loc)) (os : list socc) : Prop := Forall (GoodOcc D) os.
 (* the occurrences os, produced in environment en, only point into en or at their own declarations *)
 Definition GoodIn (en : env) (os : list socc) : Prop := Good (elocs en ++ dl os) os.
 
@@ -24,7 +25,7 @@ Proof. unfold dl. rewrite filter_app, map_app. reflexivity. Qed.
 Lemma dl_tag_if c t os : dl (tag_if c t os) = dl os.
 Proof.
   unfold dl, tag_if. induction os as [|o r IH]; [reflexivity|]. cbn [map filter].
-  destruct (c o); cbn [add_tag s_role s_loc]; destruct (is_decl (s_role o)); cbn [map]; rewrite IH; reflexivity.
+  destruct (c o); cbn [add_tag s_role s_loc s_name]; destruct (is_decl (s_role o)); cbn [map]; rewrite IH; reflexivity.
 Qed.
 
 Lemma Good_mono D D' os : incl D D' -> Good D os -> Good D' os.
@@ -72,11 +73,11 @@ Proof.
   - apply IH. intros i y Hy. apply H. right. exact Hy.
 Qed.
 
-Lemma resolve_in_elocs en n d : resolve en n = BLocal d -> In d (elocs en).
+Lemma resolve_in_elocs en n d : resolve en n = BLocal d -> In (n, d) (elocs en).
 Proof.
   unfold resolve, env_find. destruct (find (fun x => beq_bytes (fst (fst x)) n) en) as [[[a d'] f]|] eqn:E; [|discriminate].
-  intros H. injection H as <-. apply find_some in E. destruct E as [Hin _].
-  unfold elocs. apply in_map_iff. exists (a, d', f). split; [reflexivity|exact Hin].
+  intros H. injection H as <-. apply find_some in E. destruct E as [Hin Hb]. cbn in Hb. apply beq_bytes_eq in Hb. subst a.
+  unfold elocs. apply in_map_iff. exists (n, d', f). split; [reflexivity|exact Hin].
 Qed.
 
 Lemma GoodIn_use en l n r flv slv reg tg envf :
@@ -87,15 +88,15 @@ Proof.
   - cbn [s_bind]. intros d Hd. apply in_or_app. left. exact (resolve_in_elocs en n d Hd).
 Qed.
 
-Lemma dl_decls en flv slv reg e pl : dl (map (decl_occ en flv slv reg e) pl) = map snd pl.
-Proof. unfold dl. induction pl as [|p r IH]; [reflexivity|]. cbn. rewrite IH. reflexivity. Qed.
+Lemma dl_decls en flv slv reg e pl : dl (map (decl_occ en flv slv reg e) pl) = pl.
+Proof. unfold dl. induction pl as [|[n l] r IH]; [reflexivity|]. cbn. rewrite IH. reflexivity. Qed.
 
-Lemma elocs_push_decls nls emp en : incl (elocs (push_decls en nls emp)) (map snd nls ++ elocs en).
+Lemma elocs_push_decls nls emp en : incl (elocs (push_decls en nls emp)) (nls ++ elocs en).
 Proof.
   rewrite push_decls_rev. unfold elocs. rewrite map_app. intros d Hd.
   apply in_app_or in Hd. apply in_or_app. destruct Hd as [Hd|Hd]; [left|right; exact Hd].
   apply in_map_iff in Hd. destruct Hd as [[[n l] f] [Hl Hin]]. cbn in Hl. subst d.
-  apply in_rev in Hin. apply in_combine_l in Hin. apply in_map_iff. exists (n, l). split; [reflexivity|exact Hin].
+  apply in_rev in Hin. apply in_combine_l in Hin. exact Hin.
 Qed.
 
 (* declarations followed by a body evaluated under them *)
@@ -105,7 +106,7 @@ Proof.
   unfold GoodIn, Good. intros Hb. rewrite dl_app, dl_decls. apply Forall_app. split.
   - apply Forall_forall. intros s Hs. apply in_map_iff in Hs. destruct Hs as [p [<- Hp]].
     split; [reflexivity|]. cbn. intros d Hd. injection Hd as <-.
-    apply in_or_app. right. apply in_or_app. left. apply in_map. exact Hp.
+    apply in_or_app. right. apply in_or_app. left. destruct p as [n0 l0]. exact Hp.
   - eapply Good_mono; [|exact Hb]. intros d Hd. apply in_app_or in Hd. destruct Hd as [Hd|Hd].
     + apply elocs_push_decls in Hd. apply in_app_or in Hd. apply in_or_app.
       destruct Hd as [Hd|Hd]; [right; apply in_or_app; left; exact Hd|left; exact Hd].
@@ -221,15 +222,15 @@ Proof.
     { apply GoodIn_concat_index. intros i eo Heo. apply in_map_iff in Heo. destruct Heo as [e [<- He]]. cbn [fst snd].
       unfold tag_local_init. apply GoodIn_tag_if, GoodIn_tag_if. rewrite Forall_forall in IHe. apply IHe. exact He. }
     set (pl := combine (combine ns ls) (local_empties ns es)).
-    assert (Hdl : dl (map (fun x => decl_occ en flv slv reg (snd x) (fst x)) pl) = map (fun x => snd (fst x)) pl).
-    { unfold dl. induction pl as [|p r IH]; [reflexivity|]. cbn. rewrite IH. reflexivity. }
+    assert (Hdl : dl (map (fun x => decl_occ en flv slv reg (snd x) (fst x)) pl) = map fst pl).
+    { unfold dl. induction pl as [|[[n0 l0] f0] r IH]; [reflexivity|]. cbn. rewrite IH. reflexivity. }
     split.
     + unfold GoodIn, Good. rewrite dl_app. apply Forall_app. split.
       * exact (Good_mono _ _ _ (incl_mid _ _ _) Hinit).
       * apply Forall_forall. intros s Hs. apply in_map_iff in Hs. destruct Hs as [p [<- Hp]].
         split; [reflexivity|]. cbn. intros d Hd. injection Hd as <-.
         apply in_or_app. right. apply in_or_app. right. rewrite Hdl.
-        exact (in_map (fun x : list N * loc * bool => snd (fst x)) pl p Hp).
+        destruct p as [[n0 l0] f0]. exact (in_map fst pl _ Hp).
     + unfold EnvOK. intros d Hd. rewrite push_decls_rev in Hd. unfold elocs in Hd. rewrite map_app in Hd.
       apply in_app_or in Hd. rewrite dl_app. apply in_or_app. destruct Hd as [Hd|Hd]; [right|left; exact Hd].
       apply in_or_app. right. rewrite Hdl. rewrite map_rev in Hd. apply in_rev in Hd. exact Hd.
@@ -249,17 +250,32 @@ Proof.
 Qed.
 
 (* ------------------------------------------------------------------ on whole chunks *)
-Theorem decl_self_always P o d :
-  In o (bind_file P) -> s_bind o = BLocal d -> decl_self_ok (bind_file P) d = true.
+Theorem bound_has_named_decl P o d :
+  In o (bind_file P) -> s_bind o = BLocal d ->
+  exists sd, In sd (bind_file P) /\ is_decl (s_role sd) = true /\ s_loc sd = d /\ s_name sd = s_name o /\
+             s_bind sd = BLocal d.
 Proof.
   intros Hin Hb. destruct good_all as [_ [_ HB]]. destruct (HB P 0 0 (block_loc P) []) as [Hg _].
   fold (bind_file P) in Hg. unfold GoodIn, Good in Hg. cbn [elocs map app] in Hg. rewrite Forall_forall in Hg.
+  destruct (Hg o Hin) as [_ H2]. specialize (H2 d Hb). unfold dl in H2. apply in_map_iff in H2.
+  destruct H2 as [sd [Hl Hsd]]. apply filter_In in Hsd. destruct Hsd as [Hsin Hdecl]. injection Hl as Hn Hl'.
+  exists sd. repeat split; auto. destruct (Hg sd Hsin) as [H1 _]. rewrite (H1 Hdecl), Hl'. reflexivity.
+Qed.
+
+Lemma decl_occ_selfbound P s : In s (bind_file P) -> is_decl (s_role s) = true -> s_bind s = BLocal (s_loc s).
+Proof.
+  intros Hin Hd. destruct good_all as [_ [_ HB]]. destruct (HB P 0 0 (block_loc P) []) as [Hg _].
+  fold (bind_file P) in Hg. unfold GoodIn, Good in Hg. rewrite Forall_forall in Hg. exact (proj1 (Hg s Hin) Hd).
+Qed.
+
+Theorem decl_self_always P o d :
+  In o (bind_file P) -> s_bind o = BLocal d -> decl_self_ok (bind_file P) d = true.
+Proof.
+  intros Hin Hb. destruct (bound_has_named_decl P o d Hin Hb) as [sd [Hsin [Hdecl [Hl [_ Hsb]]]]].
   unfold decl_self_ok. apply andb_true_iff. split.
-  - destruct (Hg o Hin) as [_ H2]. specialize (H2 d Hb). unfold dl in H2. apply in_map_iff in H2.
-    destruct H2 as [sd [Hl Hsd]]. apply filter_In in Hsd. destruct Hsd as [Hsin Hdecl].
-    apply existsb_exists. exists sd. split; [exact Hsin|].
-    destruct (Hg sd Hsin) as [H1 _]. rewrite Hdecl, (H1 Hdecl), Hl, binding_eqb_refl, loc_eqb_refl. reflexivity.
+  - apply existsb_exists. exists sd. split; [exact Hsin|].
+    rewrite Hdecl, Hsb, Hl, binding_eqb_refl, loc_eqb_refl. reflexivity.
   - apply forallb_forall. intros s Hs. destruct (is_decl (s_role s)) eqn:Ed; [|reflexivity].
-    destruct (Hg s Hs) as [H1 _]. rewrite (H1 Ed). cbn [andb negb binding_eqb].
+    rewrite (decl_occ_selfbound P s Hs Ed). cbn [andb negb binding_eqb].
     destruct (loc_eqb (s_loc s) d); reflexivity.
 Qed.
